@@ -104,7 +104,7 @@ fn run_chunk(idx: usize, n: usize, seed: u64, cfg: &gsyn::GsynConfig, active: &[
         if kind_count(&p.tags) >= 3 {
             out.nontrivial.push(util::hash_str(&p.source));
         }
-        if idx == 0 && k % 60 == 7 && out.samples.len() < 4 {
+        if idx < 3 && k % 60 == 7 && out.samples.len() < 2 {
             out.samples.push(p.source.clone());
         }
         match judge(&p.source, active).0 {
@@ -416,6 +416,16 @@ fn main() {
     for (name, t) in doc_blocks() {
         inputs.push((name, t, "doc_blocks"));
     }
+    // canonical inputs of every finding ever recorded for the formatter (open or fixed) stay in the corpus
+    for dir in ["known/C08", "known/C09"] {
+        let mut files: Vec<_> = std::fs::read_dir(vcore::verif_root().join(dir)).into_iter().flatten().flatten().map(|e| e.path()).collect();
+        files.sort();
+        for p in files {
+            if let Ok(t) = std::fs::read_to_string(&p) {
+                inputs.push((p.display().to_string(), t, "regression_inputs"));
+            }
+        }
+    }
     let file_results: Vec<FileOut> = inputs.par_iter().map(|(n, t, _)| judge_file(n, t, &active)).collect();
     let mut seed_tags: BTreeMap<Tag, u64> = BTreeMap::new();
     let mut seed_stats: BTreeMap<String, u64> = BTreeMap::new();
@@ -432,6 +442,9 @@ fn main() {
         ev.case(if kind_count(&fo.tags) >= 3 { Some(util::hash_str(text)) } else { None });
         ev.cases(fo.decls_judged);
         *seed_stats.entry(format!("{class}:parsed")).or_insert(0) += 1;
+        if *class == "seed_files" && seed_stats[&format!("{class}:parsed")] <= 2 {
+            ev.sample(json!({"kind": "seed_file", "file": name, "round_trip_ok": fo.passed, "bytes": text.len()}));
+        }
         if fo.passed {
             *seed_stats.entry(format!("{class}:round_trip_ok")).or_insert(0) += 1;
         }
